@@ -71,10 +71,6 @@ package core
 //@   send chans.error#1 assert [non-nil] $val.error != nil
 //@   send chans.filePacked#1 assert [entry] $val.name == file && $val.idx == fileIdx
 
-//@ func uploadBundleFiles
-//@   send chans.error#1 assert [non-nil] $val.error != nil
-//@   modifies store-additive, sync
-//@   note frame assumed: the file upload goroutines only write blobs (cafs Put, create/rewrite, never delete) and bundle metrics
 
 //@ func uploadBundle
 //@   modifies store, sync, field:Bundle.BundleID, field:model.BundleDescriptor.ID, field:model.BundleDescriptor.BundleEntriesFileCount
@@ -104,6 +100,7 @@ package core
 //@ func downloadBundleDescriptor
 //@   requires store != nil
 //@   ensures [visible] ret1 == nil && !settings.withMinimalBundle ==> stored(store, model.GetArchivePathToBundle(repo, ret0.ID))
+//@   ensures [visible-minimal] ret1 == nil && settings.withMinimalBundle ==> stored(store, model.GetArchivePathToBundle(repo, ret0.ID))
 //@   call Get#1 bind ge = $ret1
 //@   ensures [propagate] ge_set && ge != nil ==> ret1 != nil
 
@@ -159,3 +156,32 @@ package core
 //@   call Errorf#1 assert [over-full] len(res.bundleEntries.BundleEntries) > bundleEntriesPerFile
 //@   call Errorf#2 assert [not-full] len(res.bundleEntries.BundleEntries) != bundleEntriesPerFile
 //@   call Errorf#2 assert [not-last] res.idx + 1 != bundle.BundleDescriptor.BundleEntriesFileCount
+
+// ---- generated-path filtering at upload (C04) ------------------------------------------------------
+//@ func (*Bundle).skipFile
+//@   requires b != nil
+//@   call IsGeneratedFile#1 assert [of-file] $0 == file
+//@   call IsGeneratedFile#1 bind gen = $ret0
+//@   ensures [generated-skipped] gen_set && (gen ==> result)
+
+//@ func uploadBundleFiles
+//@   modifies store-additive, sync
+//@   note frame assumed: the file upload goroutines only write blobs (cafs Put, create/rewrite, never delete) and bundle metrics
+//@   send chans.error#1 assert [non-nil] $val.error != nil
+//@   requires bundle != nil
+//@   call skipFile#1 assert [of-file] $file == file
+//@   call skipFile#1 bind skipped = $ret0
+//@   call uploadBundleFile#1 assert [not-skipped] skipped_set && !skipped
+//@   call uploadBundleFile#1 assert [same-file] $file == file && $fileIdx == fileIdx
+
+// ---- latest bundle / squash (C06 readers, C10) -----------------------------------------------------
+//@ func GetLatestBundle
+//@   requires stores != nil && getMetaStore(stores) != nil
+//@   ensures [visible] ret1 == nil ==> stored(getMetaStore(stores), model.GetArchivePathToBundle(repo, ret0))
+
+//@ func RepoSquash
+//@   requires stores != nil && getMetaStore(stores) != nil
+//@   call DeleteBundle#1 assert [not-latest] rangeindex#3 >= 0 && rangeindex#3 < len(bundles) - settings.retainNLatest
+//@   call DeleteBundle#1 assert [the-listed-id] $bundleID == bundle.ID && $repo == repoName
+//@   call DeleteBundle#1 assert [labelled-kept] (settings.retainTags || settings.retainSemverTags) ==> !has(labelsIndex, bundle.ID)
+//@   call DeleteLabel#1 assert [dangling-only] !has(bundlesIndex, l.BundleID) && $name == l.Name && $repo == repoName
